@@ -161,8 +161,10 @@ impl<S: Read> Master<S> {
             // every value is handed to the pipeline exactly once, in order, as a fresh context carrying its position and the
             // two counters; nothing else reaches the pipeline (C01.stream, C11.fresh, C17.idx)
             r is Ok ==> exists|fed: Seq<Context>| #[trigger] fed_ok(fed, *old(index)) && fed_post(old(process), final(process), fed), // @obl LOOP.stream : C01 C11 C17 C03
-            // Ok is returned only at the true end of the input or after the pipeline said Break; on Break it stops at once
-            r is Ok ==> final(reader).pending().len() == 0 || done(final(process)), // @obl LOOP.stop : C14 C01
+            // Continue is returned only at the true end of the input, Break only after the pipeline said Break — and then at once,
+            // so the caller can (and does) skip the remaining files
+            r is Ok && r->Ok_0 is Continue ==> final(reader).pending().len() == 0, // @obl LOOP.stop : C14 C01
+            r is Ok && r->Ok_0 is Break ==> done(final(process)), // @obl LOOP.break_reported : C14
             // a pipeline that was not done at entry is never called again after it became done (C14.loop)
             r is Ok && !old(process).must_break() && final(process).must_break() ==> done(final(process)), // @obl LOOP.break : C14
             *final(index) >= *old(index), // @obl LOOP.index_monotone : C17
@@ -187,7 +189,7 @@ impl<S: Read> Master<S> {
                         fed = fed.push(c0);
                         assert forall|x: Seq<Context>| prev_fed.add(#[trigger] seq![c0].add(x)) =~= fed.add(x) by {}
                     }
-//@@ before "break Ok(());"
+//@@ before "break Ok(ProcessDesision::Break);"
                             proof {
                                 assert(fed_ok(fed, i0));
                                 assert(fed_post(old(process), process, fed));
